@@ -840,6 +840,10 @@ func (g *generator) step() (res Value, resultType resultType, ex *Exception) {
 				}
 				return
 			}
+			if !vm.halted() {
+				// an exception has been caught by a try statement of the generator
+				continue
+			}
 
 			if vm.prg != nil && vm.pc == -2 { // normal exit from finally
 				cont, ex1 := g.enterNextFinallyFrame()
